@@ -383,6 +383,17 @@ func buildFixtures(dir string) *fixtures {
 	l.tag("oci", l.image("oci", "gzip", "amd64", t2021, []fxLayer{L.A, L.B, L.S}, histAB("A", "B", "S"), baseAnn(true), false, false))
 	fx.shapes = append(fx.shapes, &shape{name: "oci", allOCI: true, comp: "gzip", hasVersion: true, hasOwner: true, hasStrip: true, hasInnerTar: true, amd64Only: true, nImages: 1})
 
+	// ocib2: like oci, but built on a base of TWO layers whose history has a metadata-only entry
+	// between the layer entries (rebase must cut layers and history entries by their own counts)
+	{
+		baseOld2 := l.image("oci", "gzip", "amd64", t2021, []fxLayer{L.A, L.B}, histAB("A", "B"), nil, false, false)
+		l.tag("base-old2", baseOld2)
+		ann := baseAnn(true)
+		ann[annoBaseDigest] = baseOld2.Digest
+		l.tag("ocib2", l.image("oci", "gzip", "amd64", t2021, []fxLayer{L.A, L.B, L.S}, histAB("A", "B", "S"), ann, false, false))
+		fx.shapes = append(fx.shapes, &shape{name: "ocib2", allOCI: true, comp: "gzip", hasVersion: true, hasOwner: true, hasStrip: true, hasInnerTar: true, amd64Only: true, nImages: 1})
+	}
+
 	// docker: Docker schema2 image, 2 gzip layers
 	l.tag("docker", l.image("docker", "gzip", "amd64", t2021, []fxLayer{L.A, L.B}, histAB("A", "B"), nil, false, false))
 	fx.shapes = append(fx.shapes, &shape{name: "docker", allDocker: true, comp: "gzip", hasOwner: true, hasStrip: true, hasInnerTar: true, amd64Only: true, nImages: 1})
